@@ -186,7 +186,13 @@ def single_def(fn, name):
 # ------------------------------------------------------------------------------- gateway calls
 def gateway_sites(fn):
   """[(cfg node, Call)] for calls of the strict gateway (_do_doc_action) in fn."""
-  return [(n, c) for (n, c, nm) in fn.calls() if E.is_strict_gateway_call(c, nm, fn) and c.args]
+  out = []
+  for (n, c, nm) in fn.calls():
+    if E.is_strict_gateway_call(c, nm, fn):
+      c = norm(fn.world, fn, c)
+      if c.args:
+        out.append((n, c))
+  return out
 
 
 def action_names_in(expr, names):
@@ -259,8 +265,10 @@ def docmodel_handles(w):
     if isinstance(s, ast.Assign) and len(s.targets) == 1 and isinstance(s.targets[0], ast.Attribute) \
         and isinstance(s.targets[0].value, ast.Name) and s.targets[0].value.id == "self" and \
         isinstance(s.value, ast.Call) and endswith(dotted(s.value.func), "_prep_table") and \
-        len(s.value.args) == 1 and isinstance(s.value.args[0], ast.Constant):
-      out[s.targets[0].attr] = s.value.args[0].value
+        len(s.value.args) + len(s.value.keywords) == 1:
+      a = (list(s.value.args) + [k.value for k in s.value.keywords])[0]
+      if isinstance(a, ast.Constant):
+        out[s.targets[0].attr] = a.value
   if len(out) < 5:
     raise AnalysisError("DocModel.update_tables: table handles not recognised")
   return out
@@ -1234,3 +1242,54 @@ def funnel_args(w, call):
   """(table expression, rows expression) of a doBulkRemoveRecord call, else (None, None)."""
   a = bound_args(w, call, "useractions.UserActions.doBulkRemoveRecord", 2)
   return (a[0], a[1]) if a and len(a) == 2 else (None, None)
+
+
+# --------------------------------------------------------------- keyword-argument normalisation
+def callee_of(w, fn, call):
+  """FuncInfo a call resolves to: a method of fn's own class, a method of the receiver's class
+  when the receiver is typed, a function of fn's module, or -- for an untyped receiver -- the one
+  signature every method of that name in the repository shares. None when unknown."""
+  fi = local_callee(w, fn, call)
+  if fi is not None:
+    return fi
+  if isinstance(call.func, ast.Attribute):
+    t = fn.type_of(call.func.value)
+    ci = w.repo.classes.get(t) if t else None
+    if ci is not None:
+      m = w.repo.find_method(ci, call.func.attr)
+      if m is not None:
+        return m
+    cands = [c.methods[call.func.attr] for c in w.repo.classes.values()
+             if call.func.attr in c.methods]
+    sigs = {tuple(f.params()) for f in cands}
+    if cands and len(sigs) == 1:
+      return cands[0]
+  return None
+
+
+def norm(w, fn, call):
+  """The call with its keyword arguments moved to their positions (a new Call node sharing the
+  argument expressions) when the callee is known and that is possible; else the call itself."""
+  if not call.keywords or any(k.arg is None for k in call.keywords) or \
+      any(isinstance(a, ast.Starred) for a in call.args):
+    return call
+  fi = callee_of(w, fn, call)
+  if fi is None:
+    return call
+  ps = fi.params()
+  if ps[:1] in (["self"], ["cls"]) and fi.cls is not None:
+    ps = ps[1:]
+  args = list(call.args)
+  kws = {k.arg: k.value for k in call.keywords}
+  for p in ps[len(args):]:
+    if p in kws:
+      args.append(kws.pop(p))
+    else:
+      break
+  if kws:
+    return call          # some keyword could not be placed (gap, or keyword-only parameter)
+  new = ast.Call(func=call.func, args=args, keywords=[])
+  ast.copy_location(new, call)
+  new.end_lineno = getattr(call, "end_lineno", None)
+  new.end_col_offset = getattr(call, "end_col_offset", None)
+  return new
